@@ -84,3 +84,300 @@ def stmt_of(mod: Module, node: ast.AST) -> ast.AST:
 def is_self_call(c: ast.AST, name: str) -> bool:
     return isinstance(c, ast.Call) and ((isinstance(c.func, ast.Attribute) and c.func.attr == name and norm(c.func.value) in ("self", "cls"))
                                         or (isinstance(c.func, ast.Name) and c.func.id == name))
+
+
+# --------------------------------------------------------------------------- helpers of the third layer (rules C06.q ...)
+
+KEYS_MODULE = "rdflib.plugins.shared.jsonld.keys"
+
+
+def key_value(repo, mod: Module, name: str) -> Optional[str]:
+    """The JSON-LD keyword ("@id", ...) a module-level name stands for when the module imports it from the keys module
+    (resolved by value, so that LANG and LANGUAGE are the same key)."""
+    for st in mod.tree.body:
+        if isinstance(st, ast.ImportFrom) and (st.module or "").split(".")[-1] == "keys":
+            for a in st.names:
+                if (a.asname or a.name) == name:
+                    return const_str(repo.mod(KEYS_MODULE), ast.Name(id=a.name, ctx=ast.Load()))
+    return None
+
+
+def imported_from(mod: Module, module: str) -> set[str]:
+    """Local names bound by `from <module> import ...` at module level."""
+    out: set[str] = set()
+    for st in mod.tree.body:
+        if isinstance(st, ast.ImportFrom) and st.module == module:
+            out |= {a.asname or a.name for a in st.names}
+    return out
+
+
+def params(fn: ast.AST) -> list[str]:
+    a = fn.args  # type: ignore[attr-defined]
+    return [x.arg for x in a.posonlyargs + a.args + a.kwonlyargs]
+
+
+def arg_for(call: ast.Call, fn: ast.AST, param: str, method: bool = True) -> Optional[ast.expr]:
+    """The expression a call passes for parameter `param` of fn (by position or keyword); None when it is left to the default."""
+    for k in call.keywords:
+        if k.arg == param:
+            return k.value
+    names = [x.arg for x in fn.args.posonlyargs + fn.args.args]  # type: ignore[attr-defined]
+    if param in names:
+        i = names.index(param) - (1 if method else 0)
+        if 0 <= i < len(call.args) and not any(isinstance(a, ast.Starred) for a in call.args[: i + 1]):
+            return call.args[i]
+    return None
+
+
+def default_of(fn: ast.AST, param: str) -> Optional[ast.expr]:
+    a = fn.args  # type: ignore[attr-defined]
+    pos = a.posonlyargs + a.args
+    for p, d in zip(pos[len(pos) - len(a.defaults):], a.defaults):
+        if p.arg == param:
+            return d
+    for p, d in zip(a.kwonlyargs, a.kw_defaults):
+        if p.arg == param:
+            return d
+    return None
+
+
+def body_tests(mod: Module, node: ast.AST) -> Iterator[ast.expr]:
+    """Tests of the if-statements in whose *body* the node stands (innermost first); an if-statement in whose orelse it stands
+    (the earlier branches of an elif chain) contributes nothing."""
+    child = node
+    for p in mod.parents(node):
+        if isinstance(p, ast.If) and any(child is s for s in p.body):
+            yield p.test
+        if isinstance(p, (ast.FunctionDef, ast.AsyncFunctionDef, ast.ClassDef, ast.Lambda)):
+            return
+        child = p
+
+
+def self_attr_reads(fn: ast.AST) -> set[str]:
+    return {n.attr for n in own_nodes(fn, include_nested=True)
+            if isinstance(n, ast.Attribute) and isinstance(n.ctx, ast.Load) and isinstance(n.value, ast.Name) and n.value.id == "self"}
+
+
+def self_calls(fn: ast.AST) -> set[str]:
+    return {n.func.attr for n in own_nodes(fn, include_nested=True)
+            if isinstance(n, ast.Call) and isinstance(n.func, ast.Attribute) and isinstance(n.func.value, ast.Name) and n.func.value.id == "self"}
+
+
+def setter_writes(mod: Module, cls: str, prop: str) -> set[str]:
+    """self attributes the setter of property `prop` of class cls assigns (empty when prop is a plain attribute)."""
+    out: set[str] = set()
+    for st in mod.cls(cls).body:
+        if isinstance(st, ast.FunctionDef) and st.name == prop and any(norm(d) == "%s.setter" % prop for d in st.decorator_list):
+            for n in own_nodes(st):
+                if isinstance(n, ast.Attribute) and isinstance(n.ctx, ast.Store) and isinstance(n.value, ast.Name) and n.value.id == "self":
+                    out.add(n.attr)
+    return out
+
+
+def mentions(e: ast.AST, name: str) -> bool:
+    return any(isinstance(x, ast.Name) and x.id == name for x in ast.walk(e))
+
+
+def has_const(e: ast.AST, value) -> bool:
+    return any(isinstance(x, ast.Constant) and type(x.value) is type(value) and x.value == value for x in ast.walk(e))
+
+
+def is_const(e: Optional[ast.AST], value) -> bool:
+    return isinstance(e, ast.Constant) and e.value is value
+
+
+def stream_write_calls(fn: ast.AST, receiver_ok) -> Iterator[ast.Call]:
+    """Calls `<r>.write(...)` with receiver_ok(r), and calls of local names bound to such a bound method (`w = <r>.write`)."""
+    alias = set()
+    for n in own_nodes(fn, include_nested=True):
+        if isinstance(n, ast.Assign) and isinstance(n.value, ast.Attribute) and n.value.attr == "write" and receiver_ok(n.value.value):
+            alias |= {x.id for t in n.targets for x in ast.walk(t) if isinstance(x, ast.Name)}
+    for n in own_nodes(fn, include_nested=True):
+        if isinstance(n, ast.Call):
+            if isinstance(n.func, ast.Attribute) and n.func.attr == "write" and receiver_ok(n.func.value):
+                yield n
+            elif isinstance(n.func, ast.Name) and n.func.id in alias:
+                yield n
+
+
+# --------------------------------------------------------------------------- value flow helpers (equivalent spellings of one clause)
+
+def denotes(e: Optional[ast.AST], pred, defs: dict[str, list[ast.expr]], depth: int = 3) -> bool:
+    """Does the expression e evaluate to what `pred` recognises?  Either pred(e) holds, or e is a local name EVERY definition
+    of which (in the function `defs` was taken from) denotes it in turn: `n = c.identifier ... x[n]` for `x[c.identifier]`.
+    (That the definition is the one that reaches the use is a separate question: see `fresh_in_iteration`.)"""
+    if e is None:
+        return False
+    if pred(e):
+        return True
+    if depth > 0 and isinstance(e, ast.Name) and defs.get(e.id):
+        return all(denotes(v, pred, defs, depth - 1) for v in defs[e.id])
+    return False
+
+
+def binding_stmts(fn: ast.AST, name: str) -> list[ast.stmt]:
+    """Statements of fn that (re)bind the local name (assignments, for targets, with-as, walrus inside a statement)."""
+    out = []
+    for n in own_nodes(fn, include_nested=True):
+        if isinstance(n, ast.stmt) and not isinstance(n, (ast.FunctionDef, ast.AsyncFunctionDef, ast.ClassDef)):
+            heads: list[ast.AST] = []
+            if isinstance(n, ast.Assign):
+                heads = list(n.targets)
+            elif isinstance(n, (ast.AugAssign, ast.AnnAssign)):
+                heads = [n.target] if not (isinstance(n, ast.AnnAssign) and n.value is None) else []
+            elif isinstance(n, (ast.For, ast.AsyncFor)):
+                heads = [n.target]
+            elif isinstance(n, (ast.With, ast.AsyncWith)):
+                heads = [i.optional_vars for i in n.items if i.optional_vars is not None]
+            # (a walrus in the statement's own expressions - not in the statements nested in it - binds as well)
+            heads += [w.target for c in ast.iter_child_nodes(n) if isinstance(c, ast.expr) for w in ast.walk(c) if isinstance(w, ast.NamedExpr)]
+            if any(isinstance(x, ast.Name) and isinstance(x.ctx, ast.Store) and x.id == name for h in heads for x in ast.walk(h)):
+                out.append(n)
+    return out
+
+
+def fresh_in_iteration(cfg, loop: ast.AST, fn: ast.AST, name: str, use: ast.stmt) -> bool:
+    """Inside the body of `loop`, is the local `name` (re)bound in THIS iteration on every path from the loop head to the
+    statement `use`?  (Every binding of the name stands inside the loop, and `use` cannot be reached from the head of the loop
+    without passing one of them - so the name never carries the value of an earlier iteration.)"""
+    binds = binding_stmts(fn, name)
+    inside = {id(x) for s in loop.body for x in ast.walk(s)}  # type: ignore[attr-defined]
+    if not binds or any(id(b) not in inside for b in binds):
+        return False
+    head = cfg.by_ast.get(id(loop))
+    if head is None or id(use) not in cfg.by_ast:
+        return False
+    through = [cfg.by_ast[id(b)] for b in binds if id(b) in cfg.by_ast]
+    if len(through) != len(binds):
+        return False
+    return cfg.by_ast[id(use)] not in cfg.reach(head, avoid=through)
+
+
+def on_every_pass(cfg, loop: ast.AST, st: ast.stmt) -> bool:
+    """Is the statement `st` of the body of `loop` executed on every complete pass through the body - every path from the head of
+    the loop back to the head that does not leave the pass by `continue` (a skipped item) goes through it?  Guard clause or else
+    branch, nesting and order of the other statements do not matter."""
+    head = cfg.by_ast.get(id(loop))
+    at = cfg.by_ast.get(id(st))
+    if head is None or at is None:
+        return False
+    inside = {cfg.by_ast[id(x)] for s in loop.body for x in ast.walk(s) if id(x) in cfg.by_ast}  # type: ignore[attr-defined]
+    if at not in inside:
+        return False
+    skip = {n for n in inside if isinstance(cfg.nodes[n].ast, ast.Continue)}
+    seen: set[int] = set()
+    stack = [n for n in cfg.succ[head] if n in inside]
+    while stack:
+        n = stack.pop()
+        if n in seen or n == at or n in skip:
+            continue
+        seen.add(n)
+        if head in cfg.succ[n]:
+            return False  # a pass that ends without st
+        stack.extend(m for m in cfg.succ[n] if m in inside)
+    return True
+
+
+def reach_methods(mod: Module, cls: str, entries, rounds: int = 6) -> dict[str, ast.FunctionDef]:
+    """The methods of class cls that the public entry points `entries` reach through calls on self (transitively): the code
+    that does the work of those entry points however it is split into private helpers."""
+    meths = mod.methods(cls)
+    out = {e: meths[e] for e in entries if e in meths}
+    for _ in range(rounds):
+        new = {m: meths[m] for f in list(out.values()) for m in self_calls(f) if m in meths and m not in out}
+        if not new:
+            break
+        out.update(new)
+    return out
+
+
+def local_callee(mod: Module, cls: Optional[str], call: ast.AST) -> Optional[tuple[ast.FunctionDef, bool]]:
+    """(definition, is_method) of a call that can only go to code of this module: `self.m(...)` with m a method of the class
+    `cls`, or `f(...)` with f a module-level function."""
+    if not isinstance(call, ast.Call):
+        return None
+    if isinstance(call.func, ast.Attribute) and isinstance(call.func.value, ast.Name) and call.func.value.id in ("self", "cls") and cls:
+        d = mod.defs.get("%s.%s" % (cls, call.func.attr))
+        if isinstance(d, ast.FunctionDef):
+            return d, True
+    if isinstance(call.func, ast.Name):
+        d = mod.defs.get(call.func.id)
+        if isinstance(d, ast.FunctionDef):
+            return d, False
+    return None
+
+
+def delegated_returns(mod: Module, cls: Optional[str], fn: ast.AST, stmts: list[ast.stmt], depth: int = 2, _chain: tuple = ()) -> Iterator[tuple[ast.Return, tuple]]:
+    """Every `return <value>` among the statements (of function fn), as (return statement, chain).  A return that hands the
+    decision on to other code of the module - `return self.m(...)` / `return f(...)`, not a call of fn itself - stands for the
+    returns of that callee: they are yielded in its place with chain = ((delegating return, call, callee, is_method), ...), outermost
+    first.  So the value a function gives back on a branch is found wherever the branch was split off to."""
+    for r in [x for s in stmts for x in ast.walk(s)]:
+        if not (isinstance(r, ast.Return) and r.value is not None):
+            continue
+        tgt = local_callee(mod, cls, r.value) if depth > 0 else None
+        if tgt is not None and tgt[0] is not fn and all(tgt[0] is not c[2] for c in _chain):
+            yield from delegated_returns(mod, cls, tgt[0], tgt[0].body, depth - 1, _chain + ((r, r.value, tgt[0], tgt[1]),))
+        else:
+            yield r, _chain
+
+
+def terminates(stmts: list[ast.stmt]) -> bool:
+    """Does control never fall off the end of the statement list (return / raise / continue / break on every path)?"""
+    if not stmts:
+        return False
+    last = stmts[-1]
+    if isinstance(last, (ast.Return, ast.Raise, ast.Continue, ast.Break)):
+        return True
+    if isinstance(last, ast.If):
+        return terminates(last.body) and terminates(last.orelse)
+    return False
+
+
+def control_tests(mod: Module, node: ast.AST, fn: ast.AST) -> list[ast.expr]:
+    """The tests the execution of `node` is control dependent on inside fn, whatever their polarity: those of `governing_tests`
+    (enclosing if / elif / while / conditional expression) and those of guard clauses - an earlier statement of an enclosing
+    block that is an `if` one arm of which always leaves (return / raise / continue / break): `if c: return x` followed by S
+    governs S exactly as `if c: return x / else: S` does.  Innermost first."""
+    out: list[ast.expr] = []
+    child = node
+    for p in mod.parents(node):
+        for field in ("body", "orelse", "finalbody"):
+            block = getattr(p, field, None)
+            if isinstance(block, list) and any(child is s for s in block):
+                i = next(k for k, s in enumerate(block) if s is child)
+                for prev in reversed(block[:i]):
+                    if isinstance(prev, ast.If) and (terminates(prev.body) != terminates(prev.orelse)):
+                        out.append(prev.test)
+        if isinstance(p, (ast.If, ast.While, ast.IfExp)) and child is not p.test:
+            out.append(p.test)
+        if p is fn:
+            break
+        child = p
+    return out
+
+
+def governing_nodes(mod: Module, fn: ast.AST, ret: ast.AST, chain: tuple = (), stop: Optional[ast.AST] = None) -> Iterator[tuple[ast.AST, int]]:
+    """(node, frame) for every node of every test the statement `ret` is control dependent on (control_tests: enclosing tests and
+    guard clauses, either polarity) - in the function it stands in and, when it was
+    reached by delegation (see delegated_returns), in the callers down to fn (frame 0), where the walk stops below the test `stop`.
+    Local names are followed to the expressions they were assigned from; a parameter of a callee is followed to the argument
+    the delegating call passes for it (a node of the caller's frame)."""
+    frames = [fn] + [c[2] for c in chain]
+    sites = [c[0] for c in chain] + [ret]
+    defs = [local_defs(f) for f in frames]
+    pars = [set(params(f)) for f in frames]
+
+    def walk(e: ast.AST, i: int, budget: int) -> Iterator[tuple[ast.AST, int]]:
+        for n in expand(e, defs[i]):
+            yield n, i
+            if i > 0 and budget > 0 and isinstance(n, ast.Name) and n.id in pars[i]:
+                a = arg_for(chain[i - 1][1], frames[i], n.id, method=chain[i - 1][3])
+                if a is not None:
+                    yield from walk(a, i - 1, budget - 1)
+
+    for i in range(len(frames) - 1, -1, -1):
+        for t in control_tests(mod, sites[i], frames[i]):
+            if i == 0 and stop is not None and t is stop:
+                break
+            yield from walk(t, i, 6)
